@@ -12,6 +12,14 @@ included) are read in order and translated into a plan:
   self._design_days = list(data) / tuple(data)           -> .storeListOfArg
   for dd in self._design_days: ... (location update)     -> .updateLocations
 
+Round 6 (comparison strictness): the test that decides whether a day is moved to the DDY's location is read from
+BOTH setters (`design_days` and `location`): it must be the comparison of the whole Location objects
+(`dd.location != self._location`, i.e. Location.__eq__ over all nine attributes) -> `.wholeLocation`; a test on
+some attributes only, on a text form, on identity ... raises ExtractError.  A statement `self._helper()` (no
+arguments) is replaced by the body of that method, so a refactor that moves the loop into a helper is read like
+the inline form.  `Location.__key` / `Location.__slots__` of location.py are copied as `locationKey` /
+`locationSlots` (Props/C16.lean proves that the key covers every slot).
+
 Anything else raises ExtractError (tie broken: translator).  Model/DDYShapes.lean interprets the plan on an
 iterable that may be one-shot; Props/C16.lean proves that the stored days do not depend on the container kind.
 """
@@ -32,18 +40,83 @@ def _self_attr(n, attr):
     return isinstance(n, ast.Attribute) and n.attr == attr and _is_name(n.value, 'self')
 
 
-def _steps(stmts, arg):
+def _method(cls, name):
+    for n in cls.body:
+        if isinstance(n, ast.FunctionDef) and n.name == name and not n.decorator_list:
+            return n
+    return None
+
+
+def _inline(st, cls, depth):
+    """`self._helper()` -> the body of `_helper` (a plain method without arguments), else None."""
+    if (cls is not None and depth < 3 and isinstance(st, ast.Expr) and isinstance(st.value, ast.Call)
+            and isinstance(st.value.func, ast.Attribute) and _is_name(st.value.func.value, 'self')
+            and not st.value.args and not st.value.keywords):
+        m = _method(cls, st.value.func.attr)
+        if m is not None and len(m.args.args) == 1:
+            return m.body
+    return None
+
+
+def _location_guard(loop, arg=None):
+    """The loop `for dd in self._design_days: if <test>: dd.location = self._location [; print(...)]`.
+    Returns '.wholeLocation' when <test> is `dd.location != self._location` (either way round)."""
+    where = 'location update loop at line %d' % loop.lineno
+    if not (isinstance(loop.target, ast.Name) and len(loop.body) == 1 and isinstance(loop.body[0], ast.If)
+            and not loop.body[0].orelse):
+        raise ExtractError(where + ': not a single guarded statement')
+    dd = loop.target.id
+    cond = loop.body[0]
+
+    def day_loc(n):
+        return isinstance(n, ast.Attribute) and n.attr == 'location' and _is_name(n.value, dd)
+
+    def own_loc(n):
+        # `arg` (location setter only): the new location itself, after `self._location = arg`
+        return _self_attr(n, '_location') or _self_attr(n, 'location') or (arg is not None and _is_name(n, arg))
+
+    t = cond.test
+    want = ast.NotEq
+    if isinstance(t, ast.UnaryOp) and isinstance(t.op, ast.Not):            # `not a == b`
+        t, want = t.operand, ast.Eq
+    if not (isinstance(t, ast.Compare) and len(t.ops) == 1 and isinstance(t.ops[0], want)
+            and len(t.comparators) == 1
+            and ((day_loc(t.left) and own_loc(t.comparators[0])) or (own_loc(t.left) and day_loc(t.comparators[0])))):
+        raise ExtractError(where + ': the test is not `dd.location != self._location` (whole Location objects)')
+    moved = False
+    for b in cond.body:
+        if (isinstance(b, ast.Assign) and len(b.targets) == 1 and day_loc(b.targets[0]) and own_loc(b.value)):
+            moved = True
+        elif isinstance(b, ast.Expr) and isinstance(b.value, ast.Call) and (
+                _is_name(b.value.func, 'print') or (isinstance(b.value.func, ast.Attribute) and isinstance(
+                    b.value.func.value, ast.Name) and b.value.func.value.id in ('logging', 'logger', 'log', 'warnings'))):
+            continue                                                    # a progress note
+        else:
+            raise ExtractError(where + ': unsupported statement in the guarded block at line %d' % b.lineno)
+    if not moved:
+        raise ExtractError(where + ': the day is not given the location of the DDY')
+    return '.wholeLocation'
+
+
+GUARDS = []
+
+
+def _steps(stmts, arg, cls=None, depth=0):
     out = []
     for st in stmts:
         if isinstance(st, ast.Expr) and isinstance(st.value, ast.Constant) and isinstance(st.value.value, str):
             continue                                                    # docstring
+        body = _inline(st, cls, depth)
+        if body is not None:
+            out += _steps(body, arg, cls, depth + 1)
+            continue
         if isinstance(st, ast.Try):
             if st.orelse or st.finalbody:
                 raise ExtractError('design_days setter: try with else/finally at line %d' % st.lineno)
             for h in st.handlers:
                 if not (len(h.body) == 1 and isinstance(h.body[0], ast.Raise)):
                     raise ExtractError('design_days setter: handler that does not re-raise at line %d' % h.lineno)
-            out += _steps(st.body, arg)
+            out += _steps(st.body, arg, cls, depth)
             continue
         if isinstance(st, ast.If):
             t = st.test
@@ -73,11 +146,79 @@ def _steps(stmts, arg):
                 out.append('.checkItems')
                 continue
             if _self_attr(st.iter, '_design_days'):
+                GUARDS.append(_location_guard(st))
                 out.append('.updateLocations')
                 continue
             raise ExtractError('design_days setter: unsupported loop at line %d' % st.lineno)
         raise ExtractError('design_days setter: unsupported statement at line %d' % st.lineno)
     return out
+
+
+def _location_setter_guard(ddy):
+    """`DDY.location` setter: assert isinstance; self._location = data; the update loop (inline or in a helper)."""
+    setter = None
+    for n in ddy.body:
+        if isinstance(n, ast.FunctionDef) and n.name == 'location' and any(
+                isinstance(d, ast.Attribute) and d.attr == 'setter' for d in n.decorator_list):
+            setter = n
+    if setter is None or len(setter.args.args) != 2:
+        raise ExtractError('DDY.location setter not found')
+    arg = setter.args.args[1].arg
+    stmts = []
+    for st in setter.body:
+        body = _inline(st, ddy, 0)
+        stmts += body if body is not None else [st]
+    guards, stored = [], False
+    for st in stmts:
+        if isinstance(st, ast.Expr) and isinstance(st.value, ast.Constant) and isinstance(st.value.value, str):
+            continue
+        if isinstance(st, ast.Assert) or (isinstance(st, ast.If) and not st.orelse and len(st.body) == 1
+                                          and isinstance(st.body[0], ast.Raise)):
+            continue                                                    # validation of the argument
+        if isinstance(st, ast.Assign) and len(st.targets) == 1 and _self_attr(st.targets[0], '_location') \
+                and _is_name(st.value, arg):
+            if guards:
+                raise ExtractError('DDY.location setter: the days are updated before the location is stored')
+            stored = True
+            continue
+        if isinstance(st, ast.For) and not st.orelse and _self_attr(st.iter, '_design_days'):
+            if not stored:
+                raise ExtractError('DDY.location setter: the days are updated before the location is stored')
+            guards.append(_location_guard(st, arg))
+            continue
+        raise ExtractError('DDY.location setter: unsupported statement at line %d' % st.lineno)
+    if not stored or len(guards) != 1:
+        raise ExtractError('DDY.location setter: location stored %s, %d update loops' % (stored, len(guards)))
+    return guards[0]
+
+
+def _location_key():
+    """The attributes `Location.__key` lists (what `==` and `hash` compare) and `Location.__slots__`."""
+    tree, _ = parse_file('ladybug/location.py')
+    loc = find_class(tree, 'Location')
+    key = slots = None
+    for n in loc.body:
+        if isinstance(n, ast.Assign) and len(n.targets) == 1 and _is_name(n.targets[0], '__slots__') \
+                and isinstance(n.value, (ast.Tuple, ast.List)):
+            slots = [e.value for e in n.value.elts if isinstance(e, ast.Constant)]
+            if len(slots) != len(n.value.elts):
+                raise ExtractError('Location.__slots__: not a tuple of names')
+        if isinstance(n, ast.FunctionDef) and n.name.endswith('__key'):
+            rets = [b for b in n.body if isinstance(b, ast.Return)]
+            if len(rets) != 1 or not isinstance(rets[0].value, ast.Tuple):
+                raise ExtractError('Location.__key: not a single returned tuple')
+            key = []
+            for e in rets[0].value.elts:
+                if not (isinstance(e, ast.Attribute) and _is_name(e.value, 'self')):
+                    raise ExtractError('Location.__key: element that is not a plain attribute at line %d' % e.lineno)
+                key.append(e.attr)
+        if isinstance(n, ast.FunctionDef) and n.name == '__eq__':
+            src = ast.dump(n)
+            if '__key' not in src or 'isinstance' not in src:
+                raise ExtractError('Location.__eq__ does not compare the keys')
+    if key is None or slots is None:
+        raise ExtractError('Location.__key / __slots__ not found')
+    return key, slots
 
 
 def extract():
@@ -91,7 +232,13 @@ def extract():
     if setter is None or len(setter.args.args) != 2:
         raise ExtractError('DDY.design_days setter not found')
     arg = setter.args.args[1].arg
-    plan = _steps(setter.body, arg)
+    del GUARDS[:]
+    plan = _steps(setter.body, arg, ddy)
+    if len(GUARDS) != 1:
+        raise ExtractError('design_days setter: %d location update loops' % len(GUARDS))
+    days_guard = GUARDS[0]
+    loc_guard = _location_setter_guard(ddy)
+    key, slots = _location_key()
     if not any(p in ('.storeArg', '.storeListOfArg') for p in plan):
         raise ExtractError('design_days setter: nothing is stored')
     # __init__ must go through the setter (self.design_days = design_days)
@@ -108,9 +255,22 @@ def extract():
              'def setterPlan : List SetterStep := [' + ', '.join(plan) + ']', '',
              '/-- `DDY.__init__` assigns through the setter (`self.design_days = design_days`). -/',
              'def initUsesSetter : Bool := ' + ('true' if via_setter else 'false'), '',
+             '/-- What a location-update loop of ddy.py compares: `wholeLocation` = `dd.location != self._location`',
+             '    (Location.__eq__ on the whole objects). -/',
+             'inductive LocGuard where',
+             '  | wholeLocation',
+             '  deriving DecidableEq, Repr', '',
+             '/-- The test of the update loop of the `design_days` setter / of the `location` setter. -/',
+             'def daysSetterGuard : LocGuard := ' + days_guard,
+             'def locationSetterGuard : LocGuard := ' + loc_guard, '',
+             '/-- The attributes `Location.__key` lists (compared by `==`, hashed), in source order. -/',
+             'def locationKey : List String := [' + ', '.join('"%s"' % k for k in key) + ']', '',
+             '/-- `Location.__slots__`: everything a Location object holds. -/',
+             'def locationSlots : List String := [' + ', '.join('"%s"' % k for k in slots) + ']', '',
              'end Gen.DDY', '']
     write_if_changed('DDYSetter', '\n'.join(lines))
-    return {'plan': plan, 'init_uses_setter': via_setter}
+    return {'plan': plan, 'init_uses_setter': via_setter, 'days_guard': days_guard, 'location_guard': loc_guard,
+            'location_key': key, 'location_slots': slots}
 
 
 if __name__ == '__main__':
